@@ -426,6 +426,21 @@ pub fn family(name: &str, _tier: Tier) -> Vec<Prog> {
                 })
             })
             .collect(),
+        "c13/faults" => catalogue()
+            .into_iter()
+            .map(|(_, p)| p)
+            .filter(|p| p.nodes.len() <= 6)
+            .chain(cutoff_programs(false).into_iter().filter(|p| p.nodes.iter().filter(|n| n.cut.is_logged()).count() >= 2).step_by(7))
+            .map(|p| {
+                with_alpha(p, |a| {
+                    a.subscribe = true;
+                    a.max_subs = 1;
+                    a.max_observers = 2;
+                    a.disallow = false;
+                    a.values = vec![0, 1];
+                })
+            })
+            .collect(),
         "c11/drop_handles" => catalogue()
             .into_iter()
             .map(|(_, p)| p)
